@@ -83,6 +83,11 @@ SAFE_BUILTINS: Dict[str, Any] = {
     "partial": __import__("functools").partial, "functools": __import__("types").SimpleNamespace(partial=__import__("functools").partial),
 }
 SAFE_METHOD_OWNERS = (dict, list, set, frozenset, tuple, str)
+# pure standard-library modules whose members the interpreted code may use (helper_table.py resolves the imports of the
+# interpreted module against this list; anything else stays an unknown name = exit 2)
+SAFE_MODULES = ("collections", "keyword", "re", "itertools", "operator", "functools", "string", "bisect", "copy", "abc",
+                "numbers")
+_SAFE_MODULE_VALUES = (type(__import__("re").compile("")), type(__import__("re").match("", "")))
 
 
 class Closure:
@@ -626,6 +631,11 @@ class Interp:
                 return lambda *a, **k: self.call_function(m, (base,) + a, k)
             raise Raised("AttributeError", (attr,))
         if isinstance(base, SAFE_METHOD_OWNERS):
+            try:
+                return getattr(base, attr)
+            except AttributeError:
+                raise Raised("AttributeError", (attr,))
+        if (isinstance(base, type(ast)) and base.__name__.split(".")[0] in SAFE_MODULES) or isinstance(base, _SAFE_MODULE_VALUES):
             try:
                 return getattr(base, attr)
             except AttributeError:
